@@ -1613,6 +1613,7 @@ DoTraversalAux(TraversalContext & data, DataNode & node)
                            scratchStr.Clear();
                         }
                      }
+                     else scratchStr += c;  // keep the escape:  DoDirectChildLookup() calls RemoveEscapeChars() on the key, and doing that twice turns "a\\\\b" into "ab"
                      prevCharWasEscape = curCharIsEscape;
                      k++;
                   }
